@@ -288,7 +288,7 @@ def validate_trace(tag, trace, module="MCCreateTrace", cfg="CreateTrace.cfg", ti
     return res
 
 
-def apalache_inductive(tag, module, init, nxt, inv, timeout=900):
+def apalache_inductive(tag, module, init, nxt, inv, timeout=900, cinit=None, expect_failure=False):
     """Init => Inv (length 0) and Inv /\\ Next => Inv' (length 1) with Apalache: an inductive invariant, i.e. a
     proof for behaviours of ANY length.  Returns wall seconds; raises ToolError when not established."""
     d = os.path.join(WORK, "apalache", tag)
@@ -298,9 +298,21 @@ def apalache_inductive(tag, module, init, nxt, inv, timeout=900):
     shutil.copy(os.path.join(SPEC, module + ".tla"), d)
     t = time.time()
     for step, (i, length) in enumerate([(init, 0), (inv, 1)]):
-        r = sh(["apalache-mc", "check", "--init=" + i, "--next=" + nxt, "--inv=" + inv, "--length=%d" % length,
-                "--out-dir=" + os.path.join(d, "out"), module + ".tla"], cwd=d, timeout=timeout)
+        r = sh(["apalache-mc", "check", "--init=" + i, "--next=" + nxt, "--inv=" + inv, "--length=%d" % length]
+               + (["--cinit=" + cinit] if cinit else [])
+               + ["--out-dir=" + os.path.join(d, "out"), module + ".tla"], cwd=d, timeout=timeout)
         txt = r.stdout.decode(errors="replace")
+        if expect_failure:
+            # non-vacuity: with the sabotage constant the inductive step must FAIL with a counterexample (not a tool error)
+            if step == 1:
+                if "The outcome is: Error" not in txt:
+                    raise ToolError("Apalache was expected to refute %s under %s: %s" % (inv, cinit, txt[-800:]))
+                sh(["rm", "-rf", d])
+                log("Apalache: %s is refuted under %s as required (non-vacuity)" % (inv, cinit))
+                return time.time() - t
+            if "EXITCODE: OK" not in txt:
+                raise ToolError("Apalache did not establish the base case of %s: %s" % (inv, txt[-800:]))
+            continue
         if "EXITCODE: OK" not in txt:
             raise ToolError("Apalache did not establish %s (step %d): %s" % (inv, step, txt[-800:]))
     sh(["rm", "-rf", d])
